@@ -18,7 +18,7 @@
    7. non-vacuity examples, `pins`
 -/
 import MosVerif.Lemmas.TranslatedC02
-import MosVerif.Lemmas.TranslatedEnc
+import MosVerif.Lemmas.TranslatedEncRR2
 import MosVerif.Lemmas.TranslatedCodecMsg
 import MosVerif.Lemmas.CodecWF
 import MosVerif.Model.WireIO
@@ -204,9 +204,10 @@ example : ∃ bs, packMsg exMsg true 0 (msgLen exMsg) = .ok bs ∧ bs.length < m
 example : packName 12 (some [(nTricky, 12)]) nAB = .ok (nAB ++ [0], some (registerSuffixes 4 [(nTricky, 12)] 12 nAB)) := by
   decide
 
-/-- tie: compression table key expressions and the 14-bit pointer guard. -/
-theorem pins :
-    Facts.pack_keyLookup = "ptr, ok := compression[string(n[labelStart-1:])]" ∧
-    Facts.pack_keyStore = "compression[unsafeStr[suffixStart:]] = uint16(newPtr)" := by decide
+/-! tie: there is no textual pin left.  The compression-table key expressions (`compression[string(n[labelStart-1:])]`,
+    `compression[unsafeStr[suffixStart:]] = uint16(newPtr)`) and the 14-bit pointer guard are part of the functions
+    regenerated from name.go and proved EQUAL to the model: `Wire.Name_pack_translated` (Lemmas/TranslatedEncName),
+    with the leaf writers (`pack*_translated`, Lemmas/TranslatedEnc) and the packers of question.go / rr.go
+    (`Question_pack_tied`, `A_pack_tied`, … ). -/
 
 end MosVerif.C02
